@@ -147,19 +147,22 @@ Fixpoint tool_loop (d : dict) (depth : Z) (hs : list heading) : str :=
 Definition headers_tool (depth : Z) (hs : list heading) : str := tool_loop [] depth hs.
 
 (* ------------------------------------------------------------------ Specification *)
-(* outline numbering as word processors do it: one counter per level (0 = not yet used).  A heading of level l
-   makes every unused ancestor counter 1 (and it stays), adds one to counter l, clears the deeper ones;
-   its number is counters 1..l. [i] is the (1-based) level of the head of [cs]. *)
-Fixpoint bump (cs : list Z) (i : Z) (level : Z) : list Z :=
+(* outline numbering as word processors do it: one counter per level (0 = not yet used).  A heading whose own
+   counter is at (0-based) position [pos] makes every unused ancestor counter 1 (and it stays), adds one to its
+   own counter and clears the deeper ones; its number is counters 0..pos. *)
+Fixpoint bump (cs : list Z) (pos : nat) : list Z :=
   match cs with
   | [] => []
-  | c :: r => (if i <? level then (if c =? 0 then 1 else c)
-               else if i =? level then c + 1 else 0) :: bump r (i + 1) level
+  | c :: r => match pos with
+              | O => (c + 1) :: repeat 0 (length r)
+              | S p => (if c =? 0 then 1 else c) :: bump r p
+              end
   end.
+Definition level_pos (level : Z) : nat := Z.to_nat (level - 1).
 Fixpoint spec_numbering (cs : list Z) (levels : list Z) : list (list Z) :=
   match levels with
   | [] => []
-  | l :: r => let cs' := bump cs 1 l in firstn (Z.to_nat l) cs' :: spec_numbering cs' r
+  | l :: r => let cs' := bump cs (level_pos l) in firstn (S (level_pos l)) cs' :: spec_numbering cs' r
   end.
 Definition counters0 (n : nat) : list Z := repeat 0 n.
 
@@ -186,7 +189,14 @@ Fixpoint pad1 (n : nat) (l : list Z) : list Z :=
   | S n' => match l with [] => 1 :: pad1 n' [] | x :: r => x :: pad1 n' r end
   end.
 Definition next_number (prev : list Z) (level : Z) : list Z :=
-  pad1 (Z.to_nat (level - 1)) prev ++ [nth (Z.to_nat (level - 1)) prev 0 + 1].
+  pad1 (level_pos level) prev ++ [nth (level_pos level) prev 0 + 1].
+Fixpoint outline_numbers (prev : list Z) (levels : list Z) : list (list Z) :=
+  match levels with
+  | [] => []
+  | l :: r => let n := next_number prev l in n :: outline_numbers n r
+  end.
+Fixpoint increasing (prev : list Z) (nums : list (list Z)) : bool :=
+  match nums with [] => true | n :: r => lex_lt prev n && increasing n r end.
 
 (* ------------------------------------------------------------------ boolean helpers used by the correspondence *)
 Definition item_eqb (a b : item) : bool :=
